@@ -18,13 +18,13 @@
 package ucfg
 
 type fieldSet struct {
-	fields map[string]struct{}
+	fields map[string]interface{} // name -> owner (who added it; may be nil)
 	parent *fieldSet
 }
 
 func newFieldSet(parent *fieldSet) *fieldSet {
 	return &fieldSet{
-		fields: map[string]struct{}{},
+		fields: map[string]interface{}{},
 		parent: parent,
 	}
 }
@@ -37,7 +37,22 @@ func (s *fieldSet) Has(name string) (exists bool) {
 }
 
 func (s *fieldSet) Add(name string) {
-	s.fields[name] = struct{}{}
+	s.fields[name] = nil
+}
+
+// AddNewBy adds name on behalf of owner. If name has already been added to
+// this very set (not to a parent) by the same non-nil owner, the owner is
+// doing again what it did before, next to its first attempt and not nested
+// in it: this is reported as new as well.
+func (s *fieldSet) AddNewBy(name string, owner interface{}) (ok bool) {
+	if prev, exists := s.fields[name]; exists {
+		return owner != nil && prev == owner
+	}
+	if s.parent != nil && s.parent.Has(name) {
+		return false
+	}
+	s.fields[name] = owner
+	return true
 }
 
 func (s *fieldSet) AddNew(name string) (ok bool) {
